@@ -1158,6 +1158,29 @@ func init() {
 		}
 	}
 	regScenario("batch-mix", mkMix(FSMBatching))
+	// the same with barriers late in the burst, so that a barrier shares an FSM batch with commands that precede it
+	// (the first two entries of a burst are dispatched on their own, the rest commit together)
+	mkMix2 := func(fsm FSMKind, slow bool) func() *Scenario {
+		return func() *Scenario {
+			sc := mkMix(fsm)()
+			sc.SlowFSM = slow
+			sc.Horizon += 200
+			sc.Steps[1] = stepDo("apply+apply+apply+barrier+addnonvoter+apply+barrier", whenSettled, func(w *World) {
+				l := w.leader()
+				w.apply(l, 0)
+				w.apply(l, 0)
+				w.apply(l, 0)
+				w.barrier(l)
+				w.addNonvoter(l, 3, 0)
+				w.apply(l, 0)
+				w.barrier(l)
+			})
+			return sc
+		}
+	}
+	regScenario("batch-mix2", mkMix2(FSMBatching, false))
+	regScenario("batch-mix2-slowfsm", mkMix2(FSMBatching, true))
+	regScenario("batch-mix2-plain-slowfsm", mkMix2(FSMPlain, true))
 	// A new leader applies an old-term entry it had stored but not yet applied (no caller waits for it on this
 	// server) in the same FSM batch as a fresh client command: the old leader crashes right after acknowledging
 	// apply2, before the followers learn that it is committed, and apply3 is submitted as soon as a new leader
